@@ -2,7 +2,8 @@
 (* Behaviour generator: Slb plus a history variable; every behaviour of full length *)
 (* is printed as one JSON case (ops with arguments and the mechanism's reply).      *)
 EXTENDS Slb, Json
-CONSTANT MaxOps
+CONSTANTS MaxOps,
+          Focus      \* TRUE: reloads change one thing only (remove / re-add backends with all other weights kept, or change one weight)
 VARIABLES h, fin
 gvars == <<vars, h, fin>>
 
@@ -19,7 +20,10 @@ GNext ==
   \/ \E r \in 0..MaxWsum : StickyPick(r) /\ Op([op |-> "pick", algo |-> "sticky", r |-> r, expM |-> reply'.b])
   \/ \E b \in B : Flip(b) /\ Op([op |-> "flip", b |-> b])
   \/ \E b \in B, d \in {-1, 1} : ConnOp(b, d) /\ Op([op |-> "conn", b |-> b, d |-> d])
-  \/ \E nw \in [B -> Weights] : Update(nw) /\ Op([op |-> "update", w |-> nw])
+  \/ \E nw \in [B -> Weights], keep \in SUBSET B :
+        /\ (Focus => ((\A b \in keep \cap InList : nw[b] = w[b])
+                       \/ (keep = InList /\ Cardinality({b \in B : nw[b] # w[b]}) = 1)))
+        /\ Update(nw, keep) /\ Op([op |-> "update", w |-> nw, keep |-> SortedOf(keep)])
   \/ Len(h) = MaxOps + 1 /\ ~fin /\ fin' = TRUE /\ UNCHANGED <<vars, h>>
 
 \* printed once per behaviour, when it has reached full length
